@@ -48,3 +48,6 @@ const char g_tag_funcFreeObject_Small, g_tag_funcFreeObject_LD, g_tag_funcFreeOb
 Slot g_S0, g_anon; int g_kind, g_kind_was, g_argid, g_event, g_disp, g_pred; _Bool g_verdict, g_born, g_dead, g_cur_is_w; void *g_cur_addr; unsigned long g_seq;
 const char g_dtor_tag_ItemV, g_dtor_tag_ItemW; WList *g_rm_list; long g_rm_idx; WList *g_ins_list; long g_ins_idx;
 #endif
+#ifdef UNIT_EVENTUTIL
+int g_rm_n; void *g_rm_target; Node *g_rm_h; int g_rm_ev; int g_fe_n; void *g_fe_target; int g_fe_ev; _Bool *g_fe_found; _Bool g_fe_found_val; void *g_fe_cap_target; FnPtr *g_fe_cap_cb; int *g_fe_cap_ev;
+#endif
